@@ -293,11 +293,32 @@ def oracle(st, started, finished):
     close_start = None        # (index, time, deadline)
     close_call_idx = None     # index of the datagrams_to_send call that built closing packets
     last_activity = None      # (time, idle bound)
+    has_peer = False          # connect() succeeded / a packet of the peer authenticated
+    local_close = None        # index of an application close() not yet followed by a transmit
     n = len(tr)
     for i, rec in enumerate(tr):
         api = rec["api"]
         if api in ("connect", "receive_datagram"):
             begun = True
+        if (api == "connect" and rec["raised"] is None) or (api == "receive_datagram" and rec.get("auth")):
+            has_peer = True
+        # "starting to close" is the moment the connection enters its closing or
+        # draining period, whether or not a closing packet could be built (the
+        # anti-amplification budget may leave room for none)
+        if (close_start is None and not term_seen and rec["raised"] is None
+                and api in ("datagrams_to_send", "receive_datagram")
+                and rec.get("state_after") in ("CLOSING", "DRAINING")):
+            pto = max(rec["pto_before"], rec.get("pto_after") or 0.0)
+            close_start = (i, rec["now"], rec["now"] + 3 * pto)
+        if api == "close" and rec["raised"] is None and begun and has_peer and close_start is None and not term_seen:
+            if local_close is None:
+                local_close = i
+        if api == "datagrams_to_send" and rec["raised"] is None and local_close is not None:
+            # "After a local close ...": the transmit that follows close() starts the closing period
+            if rec.get("state_after") not in ("CLOSING", "DRAINING", "TERMINATED"):
+                problems.append(("close-not-started",
+                                 f"close() at call {local_close} but datagrams_to_send left state {rec.get('state_after')}", {}))
+            local_close = None
         # 1. no exception from the public calls (from the start on)
         if rec["raised"] is not None and api in PUBLIC and begun:
             problems.append(("exception", f"{api} raised {type(rec['raised']).__name__}: {rec['raised']}",
